@@ -180,6 +180,7 @@ def exec (a : List String) : String :=
     s!"{hexOfChars text} LOAD-OK"
   | ["sloop", _doc, _ind] => "LOOP-OK"
   | ["cli", _doc, _prog, _ind] => "LOOP-OK"
+  | ["cli", _doc, _prog, _ind, _flags] => "LOOP-OK"
   | _ => "BAD-OP"
 
 end SV.Drv.C15
